@@ -64,6 +64,9 @@ def measures():
         a(M('pagerank_centrality@' + dom, dom, lambda b, X, e: b.pagerank_centrality(X, .85), N))
         a(M('findwalks@' + dom, dom, lambda b, X, e: b.findwalks(X), (T3, S, S)))
         a(M('matching_ind@' + dom, dom, lambda b, X, e: b.matching_ind(X), (P, P, P)))
+        # with unit lengths every shortest path has the same number of edges: the edge-count output is well defined
+        a(M('distance_wei:edge_counts@' + dom, dom, lambda b, X, e: b.distance_wei(X)[1], P))
+        a(M('distance_wei_floyd:hops@' + dom, dom, lambda b, X, e: b.distance_wei_floyd(X)[1], P))
     for dom in ('und_wei', 'dir_wei', 'und_int', 'dir_int', 'und_neartie', 'dir_neartie', 'und_logu'):
         a(M('distance_wei@' + dom, dom, lambda b, X, e: b.distance_wei(X)[0], P))
         a(M('distance_wei_floyd@' + dom, dom, lambda b, X, e: b.distance_wei_floyd(X)[0], P))
